@@ -353,6 +353,8 @@ def merge(c, a, b):
             pass
     if isinstance(a, ZSeq) or isinstance(b, ZSeq):
         return ZSeq(z3.If(c, ZSeq.of(a).e, ZSeq.of(b).e))
+    if isinstance(a, SSet) or isinstance(b, SSet):
+        return SSet(z3.If(c, SSet.of(a).e, SSet.of(b).e))
     if isinstance(a, SSeq) and isinstance(b, SSeq):
         return SSeq(z3.If(c, _ie(a.length), _ie(b.length)), lambda i: merge(c, a.get(i), b.get(i)), kind=a.kind)
     raise Unsupported("cannot merge values %r / %r" % (a, b))
@@ -393,15 +395,72 @@ def Len(s):
     return len(s)
 
 
+PENDING_FACTS = []
+
+
+def note_fact(e):
+    """record a fact that is true by a type invariant (e.g. a byte read is in [0, 255]); the engine
+    moves pending facts into the path condition at its next step"""
+    PENDING_FACTS.append(e)
+
+
+def drain_facts():
+    out = list(PENDING_FACTS)
+    del PENDING_FACTS[:]
+    return out
+
+
+def bytes_get(arr):
+    def get(i):
+        e = z3.Select(arr, i)
+        note_fact(z3.And(e >= 0, e <= 255))
+        return SInt(e)
+    return get
+
+
 def bytes_param(name):
     """Fresh symbolic bytes value: (SSeq, [hypotheses])."""
     arr = z3.Array(name, z3.IntSort(), z3.IntSort())
     n = z3.Int(name + "!len")
-
-    def get(i):
-        return SInt(z3.Select(arr, i))
-    s = SSeq(n, get, kind="bytes", base=(name, arr, n))
+    s = SSeq(n, bytes_get(arr), kind="bytes", base=(name, arr, n))
     return s, [n >= 0]
+
+
+class SSet(SVal):
+    """Set of ints as Array Int->Bool."""
+    __slots__ = ("e",)
+
+    def __init__(self, e):
+        self.e = e
+
+    @staticmethod
+    def of(v):
+        if isinstance(v, SSet):
+            return v
+        e = z3.K(z3.IntSort(), z3.BoolVal(False))
+        for x in sorted(v):
+            e = z3.Store(e, z3.IntVal(x), z3.BoolVal(True))
+        return SSet(e)
+
+    def contains(self, x):
+        return SBool(z3.Select(self.e, _ie(x)))
+
+    def add(self, x):
+        return SSet(z3.Store(self.e, _ie(x), z3.BoolVal(True)))
+
+    def __eq__(self, o):
+        return SBool(self.e == SSet.of(o).e)
+
+    def __ne__(self, o):
+        return SBool(z3.Not(self.e == SSet.of(o).e))
+    __hash__ = None
+
+
+def set_add(s, x):
+    """s | {x} for python frozensets and symbolic sets alike (usable in specs)"""
+    if isinstance(s, SSet) or is_sym(x):
+        return SSet.of(s).add(x)
+    return frozenset(s) | frozenset([x])
 
 
 def byte_fact(e):
